@@ -2,9 +2,12 @@
 //   stdin lines:  F <maxChars> <hex bytes>          -> transcodeFrom
 //                 T <maxBytes> <throw 0|1> <hex units>  -> transcodeTo
 //                 C <hex codepoint>                 -> canTranscodeTo
+//                 GF/GT/GC <enc> ...                 -> the same on the named intrinsic transcoder
+//                 GS <enc> <blk> <maxChars> <hex bytes>  -> repeated transcodeFrom over the whole input (see doStream)
 //   enumeration:  hx_utf8 enum <space> [digest]   (see tools/props/c05.py)
 #include "hx_common.hpp"
 #include <map>
+#include <algorithm>
 #include <xercesc/util/TransService.hpp>
 #include <xercesc/util/XMLUTF8Transcoder.hpp>
 #include <xercesc/util/UTFDataFormatException.hpp>
@@ -115,6 +118,42 @@ static std::string doTo(const std::vector<uint32_t>& units, size_t maxBytes, boo
     }
 }
 
+// whole-input decoding the way a consumer (XMLReader::xcodeMoreChars) does it: hand the transcoder at most
+// <blk> unconsumed bytes and room for <maxChars> characters, append what it delivers, advance by bytesEaten.
+//   GS <enc> <blk> <maxChars> <hex bytes> -> done <units> | exc <name> <units delivered before> <offset of the throwing call>
+//                                            | stalled <units> <offset>
+static std::string doStream(XMLTranscoder* t, const std::vector<uint32_t>& bytes, size_t blk, size_t maxChars) {
+    std::vector<uint32_t> delivered;
+    size_t pos = 0;
+    std::string note;                                     // first call whose charSizes do not add up to bytesEaten
+    static std::vector<XMLCh> out; static std::vector<unsigned char> sizes;
+    if (out.size() < maxChars + 4) { out.resize(maxChars + 4); sizes.resize(maxChars + 4); }
+    for (size_t calls = 0; pos < bytes.size(); calls++) {
+        size_t n = std::min(blk, bytes.size() - pos);
+        if (calls > bytes.size() + 1) return "stalled " + hx::hexList(delivered) + " " + std::to_string(pos);
+        XMLByte* src = new XMLByte[n ? n : 1];            // exact size: an over-read is an ASan report
+        for (size_t i = 0; i < n; i++) src[i] = (XMLByte)bytes[pos + i];
+        size_t lim = std::min(n * 2, maxChars);           // no transcoder makes more than 2 units per byte
+        std::fill(out.begin(), out.begin() + lim + 1, 0x5A5A); std::fill(sizes.begin(), sizes.begin() + lim + 1, 0x77);
+        out[maxChars] = 0x5A5A;
+        XMLSize_t eaten = 0, got = 0;
+        try {
+            got = t->transcodeFrom(src, n, out.data(), maxChars, eaten, sizes.data());
+        } catch (const XMLException& e) {
+            delete[] src;
+            return std::string("exc ") + excName(e) + " " + hx::hexList(delivered) + " " + std::to_string(pos) + note;
+        }
+        delete[] src;
+        if (got > maxChars || out[maxChars] != 0x5A5A || eaten > n) return "OVERRUN";
+        size_t sum = 0;
+        for (size_t i = 0; i < got; i++) { delivered.push_back(out[i]); sum += sizes[i]; }
+        if (sum != eaten && note.empty()) note = " charsizes-sum=" + std::to_string(sum) + "-eaten=" + std::to_string(eaten) + "-call-at=" + std::to_string(pos);
+        if (eaten == 0) return "stalled " + hx::hexList(delivered) + " " + std::to_string(pos) + note;
+        pos += eaten;
+    }
+    return "done " + hx::hexList(delivered) + note;
+}
+
 int main(int argc, char** argv) {
     XMLPlatformUtils::Initialize();
     XMLTransService::Codes rc;
@@ -132,6 +171,9 @@ int main(int argc, char** argv) {
             XMLTranscoder* save = gT; gT = tcFor(f[1]);
             puts(gT ? doFrom(hx::parseHexList(f[3]), std::stoul(f[2])).c_str() : "no-transcoder");
             gT = save;
+        } else if (f[0] == "GS" && f.size() == 5) {
+            XMLTranscoder* t = tcFor(f[1]);
+            puts(t ? doStream(t, hx::parseHexList(f[4]), std::stoul(f[2]), std::stoul(f[3])).c_str() : "no-transcoder");
         } else if (f[0] == "GT" && f.size() == 5) {
             XMLTranscoder* save = gT; gT = tcFor(f[1]);
             puts(gT ? doTo(hx::parseHexList(f[4]), std::stoul(f[2]), f[3] == "1").c_str() : "no-transcoder");
